@@ -34,7 +34,9 @@ ASSUMPTIONS = [
 
 PTYPES = ["int", "str", "float", "bool", "None", "Optional[int]", "int | str", "list[int]", "dict[str, int]",
           "tuple[int, str]", "A", "B", "E", "Literal[1, 2]", "Sequence[int]", "TD", "object", "list[str]",
-          "tuple[int, ...]", "set[int]", "Optional[A]", "type[A]", "bytes", "Iterable[str]", "Mapping[str, int]"]
+          "tuple[int, ...]", "set[int]", "Optional[A]", "type[A]", "bytes", "Iterable[str]", "Mapping[str, int]",
+          # unions of ten or more members (indexed lookup in pyanalyze) holding literals that are equal across types
+          "Literal[0, 1, 2, 3, 4, 5, 6, 7, 8, False, True]", 'Literal[False, True, 0, 1, 2, 3, 4, 5, 6, 7, 8, "a"]', "Perm", "FSub"]
 
 ARG_POOL = [o.src for o in universe.UNIVERSE if o.kind in ("scalar", "enum", "container", "instance", "class")]
 
